@@ -20,7 +20,9 @@ import RxModel.Lemmas.SingleChain
     `feedEvs pre evs` = the history in which every effective emission of subject 0 is replaced by
     the emissions of what `pre` outputs for it (clock advances and `run`s stay where they are).
     Early termination is handled, not excluded: when `post` has finished (`take 1` behind
-    `observe_on` …) the subject withholds its terminal, `pre` never sees it, later tasks are
+    `observe_on` …) the subject still hands its terminal to `pre` (since `fix: Subject::error/
+    complete hand the terminal to every subscriber`; before it the subject withheld it), the stage
+    schedules it like any other notification, and for the finished `post` the later tasks are
     no-ops — the equation still holds.
   * `C07C_observeOn_fifo` — hence: the log is `post` applied to a PREFIX of what `pre` outputs for
     the gated source script, and right after a `run` the log is EXACTLY what the synchronous chain
@@ -212,16 +214,17 @@ example :
        .emit 0 .complete, .run]
       = [.next (.int 2), .next (.int 3), .complete] := by decide
 
-/-- The withheld terminal: `take 1` behind `observe_on` has finished when the source completes;
-    `last` in front never sees the completion (its final item is never scheduled) — the log is
-    still the synchronous chain's. -/
+/-- `take 1` behind `observe_on` has finished when the source completes: the completion is still
+    handed to `scan` in front and scheduled by `observe_on` (before `fix: Subject::error/complete hand
+    the terminal to every subscriber` the subject withheld it); the finished `take 1` ignores the
+    task — the log is still the synchronous chain's. -/
 example :
     ([TW.Ev.sub, .emit 0 (.next (.int 1)), .run, .emit 0 (.next (.int 2)), .emit 0 .complete, .run].foldl
       TW.step (obsChain [.scan exAdd (.int 0)] [.take 1])).log
       = [.next (.int 1), .complete] := by decide
 
-/-- … `buffer_with_count 2` in front: the remainder `[3]` it would release on completion is never
-    scheduled (the feed of the simulation does contain it; `take 1` ignores it). -/
+/-- … `buffer_with_count 2` in front: the remainder `[3]` it releases on completion is scheduled
+    like everything else (the feed of the simulation contains it); `take 1` ignores it. -/
 example :
     ([TW.Ev.sub, .emit 0 (.next (.int 1)), .emit 0 (.next (.int 2)), .run, .emit 0 (.next (.int 3)),
       .emit 0 .complete, .run].foldl TW.step (obsChain [.bufferCount 2] [.take 1])).log
